@@ -23,6 +23,7 @@ structure DState where
   opts : BuildOpts := { bundle := [], forTCP := false, useAuth := true }
   filters : List GFilter := []
   custom : CustomOpts := { providers := [], multi := false }
+  term : Bool := false
 deriving Inhabited
 
 def S (s : Str) : String := enc (String.ofList s)
@@ -186,8 +187,17 @@ def step (s : DState) (toks : List String) : DState × String :=
     let names := (L provs).map fun n => if hasPrefix "http:".toList n then n.drop 5 else n
     let https := ((L provs).filter fun n => hasPrefix "http:".toList n).map (·.drop 5)
     ({ s with custom := { providers := names, multi := tokBool multi, httpProviders := https } }, "ok")
-  | "wl" :: root :: ns :: labels :: _ =>
-    ({ s with wl := { rootNs := (dec root).toList, ns := (dec ns).toList, labels := labelsOf labels } }, "ok")
+  | "wl" :: root :: ns :: labels :: rest =>
+    -- rest: proxy type (sidecar | router | waypoint), service `name|ns|k8s` or `name|ns|ext` (or -),
+    -- `term` = NewWaypointTerminationBuilder: standard (non-waypoint) selection, no service, no filter state
+    let term := (rest.drop 2).headD "" == "term"
+    let svc : Option (Str × Str × Bool) :=
+      match splitBar (dec ((rest.drop 1).headD "-")) with
+      | [n, sns, reg] => if term then none else some (n, sns, reg == "k8s".toList)
+      | _ => none
+    ({ s with wl := { rootNs := (dec root).toList, ns := (dec ns).toList, labels := labelsOf labels,
+                      waypoint := rest.headD "" == "waypoint" && !term, service := svc },
+              term := term }, "ok")
   | "pol" :: a :: ns :: name :: dry :: prov :: rest =>
     ({ s with policies := s.policies ++ [{ ns := (dec ns).toList, name := (dec name).toList, action := actionOf a,
                                            dryRun := isDryRun (if dry == "0" then none else some (dec dry).toList), provider := (dec prov).toList,
@@ -209,7 +219,7 @@ def step (s : DState) (toks : List String) : DState × String :=
     let c : Condition := ⟨(dec key).toList, L vs, L nvs⟩
     ({ s with policies := modifyLast (fun p => { p with rules := modifyLast (fun r => { r with whens := r.whens ++ [c] }) p.rules }) s.policies }, "ok")
   | "build" :: kind :: auth :: rest =>
-    let o : BuildOpts := { bundle := s.bundle, forTCP := kind != "http", useAuth := tokBool auth,
+    let o : BuildOpts := { bundle := s.bundle, forTCP := kind != "http", useAuth := tokBool auth || s.term,
                            tcpRulesAsHTTP := kind == "tcphttp" }
     let fs := forListenerClass (kind == "http" && rest.headD "in" == "out") (compileAll s.wl o s.custom s.policies)
     ({ s with opts := o, filters := fs }, showFilters fs)
